@@ -206,5 +206,7 @@ MC_ASSUME = [
     'state-hash pruning merges schedules with equal reads-from history; executions run in-process with dispenso global state rebuilt before each, checked by hash comparison on every replayed prefix',
 ]
 
-from specs_seq import *  # noqa: F401,F403,E402
-from specs_mc import *  # noqa: F401,F403,E402
+# every checks/specs_*.py registers its checks on import
+import glob as _glob, importlib as _importlib  # noqa: E402
+for _f in sorted(_glob.glob(os.path.join(os.path.dirname(os.path.abspath(__file__)), 'specs_*.py'))):
+    _importlib.import_module(os.path.basename(_f)[:-3])
